@@ -284,6 +284,18 @@ def xor_intersection(map_list):
     return _apply_operation(map_list, np.bitwise_xor, 0, union=False, int_only=True)
 
 
+def _extreme_value(hsp_map, lowest):
+    """
+    The lowest (or highest) value of the data type of a map, which is the
+    identity of the maximum (or minimum) operation.
+    """
+    t = hsp_map._sparse_map.dtype.type
+    if issubclass(t, np.integer):
+        return t(np.iinfo(t).min) if lowest else t(np.iinfo(t).max)
+    else:
+        return -np.inf if lowest else np.inf
+
+
 def max_intersection(map_list):
     """
     Element-wise maximum of the intersection of a list of the HealSparseMaps.
@@ -299,7 +311,7 @@ def max_intersection(map_list):
         Element-wise maximum of maps
     """
 
-    return _apply_operation(map_list, np.fmax, 0, union=False, int_only=False)
+    return _apply_operation(map_list, np.fmax, _extreme_value(map_list[0], True), union=False, int_only=False)
 
 
 def min_intersection(map_list):
@@ -317,7 +329,7 @@ def min_intersection(map_list):
         Element-wise minimum of maps
     """
 
-    return _apply_operation(map_list, np.fmin, -hpg.UNSEEN, union=False, int_only=False)
+    return _apply_operation(map_list, np.fmin, _extreme_value(map_list[0], False), union=False, int_only=False)
 
 
 def max_union(map_list):
@@ -335,7 +347,7 @@ def max_union(map_list):
         Element-wise maximum of maps
     """
 
-    return _apply_operation(map_list, np.fmax, 0, union=True, int_only=False)
+    return _apply_operation(map_list, np.fmax, _extreme_value(map_list[0], True), union=True, int_only=False)
 
 
 def min_union(map_list):
@@ -353,7 +365,7 @@ def min_union(map_list):
         Element-wise minimum of maps
     """
 
-    return _apply_operation(map_list, np.fmin, -hpg.UNSEEN, union=True, int_only=False)
+    return _apply_operation(map_list, np.fmin, _extreme_value(map_list[0], False), union=True, int_only=False)
 
 
 def ufunc_intersection(map_list, func, filler_value=0):
